@@ -43,6 +43,11 @@ func genCase(t *rapid.T) Case {
 	case 1, 2:
 		np = rapid.IntRange(13, 40).Draw(t, "nparams-more")
 	}
+	if rapid.IntRange(0, 39).Draw(t, "bulk?") == 7 {
+		// parameter counts around 2^15 and up to the protocol maximum
+		np = rapid.IntRange(0, 3).Draw(t, "nparams-with-bulk")
+		c.Bulk = rapid.SampledFrom([]int{32767, 32768, 40000, 65535}).Draw(t, "total-params") - np
+	}
 	c.PShape = rapid.SampledFrom([]string{"none", "one", "each"}).Draw(t, "pshape")
 	common := int16(0)
 	if c.PShape == "one" {
